@@ -53,12 +53,19 @@ func (m *MethodScope) resolveVarNameConflict(suggested string) string {
 		if ok {
 			continue
 		}
+		// The numbered name must not shadow an imported package either.
+		if _, ok := m.registry.searchImport(suggested + strconv.Itoa(n)); ok {
+			continue
+		}
 
 		if n == 1 {
-			conflict, _ := m.searchVar(suggested)
-			conflict.Name += "1"
-			m.conflicted[suggested] = true
-			n++
+			// The var holding the plain name may have been renamed since
+			// (ex: after an import conflict), so it is not always there.
+			if conflict, ok := m.searchVar(suggested); ok {
+				conflict.Name += "1"
+				m.conflicted[suggested] = true
+				n++
+			}
 		}
 		return suggested + strconv.Itoa(n)
 	}
